@@ -10,7 +10,7 @@
                          Process.parents                  (`parents`, `parentsLoop`)
                          pids() / _LOWEST_PID             (`Ps`, `lowestPid`)
 
-  Same branch order and names as the Python. Import-free (Base.Bytes only, for the stat line).
+  Same branch order and names as the Python. Imports Base.Bytes and Base.Dec only (stat line).
   Loops that Python writes as `while` are fuelled; running out of fuel is the explicit outcome
   `Out.diverged` (never a default value) and the theorems say when it can(not) be reached.
 -/
@@ -60,6 +60,9 @@ structure Cfg where
   lowestStop : Bool
   /-- `_raise_if_pid_reused()` also raises NoSuchProcess when `self._gone` is set (after the reused test) -/
   goneRaises : Bool
+  /-- the lowest-PID stop of `parent()` checks the caller's identity (`self._raise_if_pid_reused()`)
+      before it returns None (false in psutil as found: the stop comes before any identity check) -/
+  rootGuarded : Bool
 deriving Repr
 
 /-! ## World -/
@@ -228,7 +231,11 @@ def parent (c : Cfg) (ps : Ps) (T : Table) (me : Caller) : Ps × Caller × Out (
     match lowestPid ps T with
     | (ps', none) => (ps', me, .indexError)
     | (ps', some lowest) =>
-      if me.pid == lowest then (ps', me, .ok none)
+      if me.pid == lowest then
+        if c.rootGuarded then
+          let g := raiseIfPidReused c.goneRaises (lookOf T) me
+          if g.2 then (ps', g.1, .nsp me.pid) else (ps', g.1, .ok none)
+        else (ps', me, .ok none)
       else (ps', parentCore c T me)
   else (ps, parentCore c T me)
 
